@@ -449,7 +449,7 @@ UNGUARDED = ("retarget-after-success", "signal-width-after-success", "retarget",
 
 def after_failed_parent(rec, label, design, skip=()):
     """History-dependent faults: a valid design's sub-modules also sit under ANOTHER parent whose elaboration fails very late (an
-    instance array with an unconnected port is only found by the post-flattening connection check).  Afterwards the designer adds a
+    unnamed module among its children is only found by the last pass).  Afterwards the designer adds a
     fault to a sub-module (or something that needs the early passes: an instance array).  Whatever is then exported for that
     sub-module must not be ill-formed: the addition is refused, or elaboration raises, or the package equals a fresh build's."""
     import hdl21 as h
@@ -471,10 +471,12 @@ def after_failed_parent(rec, label, design, skip=()):
         case = {"kind": "after-failed-parent", "base": label, "fault": fault, "design": design}
         rec.case(key=jhash([label, "after-failed-parent", fault]), nontrivial=True, sample=None)
         bad = h.Module(name=f"LateBad_{next(build._counter)}")
+        # its FIRST instance is of a module without a name: the very last pass (which names and marks modules) fails there, before it
+        # reaches the sub-modules - they have been through every checking pass by then, and are not marked as elaborated
+        bad.add(h.Instance(of=h.Module())(), name="a_anon")
         for k, n in enumerate(subs):
             sp, bp = refsem.iface(design, ["mod", n])
             bad.add(h.Instance(of=built.modules[n])(**{p: h.NoConn() for p in list(sp) + list(bp)}), name=f"u{k}")
-        bad.add(h.InstanceArray(build.leaf_call("E2", 990), 2)(y=h.NoConn()), name="arr")  # port `x` unconnected
         sub = built.modules[subs[-1]]
         if fault.endswith("-after-success"):
             # no failure at all: the sub-module is elaborated successfully, and its connections are edited afterwards
